@@ -289,10 +289,25 @@ macro_rules! leaf_type {
         }
         impl Drop for $name {
             fn drop(&mut self) {
+                drop_wake(self.id);
                 child_dropped(self.id);
             }
         }
     };
+}
+
+/// Alphabet (dw budget): the destructor of a leaf that is dropped inside a combinator's poll wakes a pending sibling.
+fn drop_wake(id: u32) {
+    if std::thread::panicking() {
+        return;
+    }
+    let pick = WORLD.with(|w| match w.try_borrow_mut() {
+        Ok(mut w) => w.dropwake_decide(id),
+        Err(_) => None,
+    });
+    if let Some((wid, wk)) = pick {
+        fire(wid, &wk, true);
+    }
 }
 leaf_type!(Leaf);
 leaf_type!(TryLeaf);
@@ -327,6 +342,24 @@ impl Stream for SLeaf {
             LeafRes::End => Poll::Ready(None),
             _ => Poll::Pending,
         }
+    }
+    /// An honest hint: never more items than the upper bound, never fewer than the lower one. An upper bound of
+    /// 0 does NOT mean the stream has ended - it may still answer Pending before it answers None.
+    fn size_hint(&self) -> (usize, Option<usize>) {
+        with(|w| {
+            let r = &w.children[self.id as usize];
+            if !w.cfg.hints || r.spec.always {
+                return (0, None);
+            }
+            if r.finished {
+                return (0, Some(0));
+            }
+            let left = r.items_left as usize;
+            let capped = (r.never_after.saturating_sub(r.seq)) as usize;
+            let upper = if r.spec.never { 0 } else { left.min(capped) };
+            let lower = if w.cfg.early_end || r.spec.never || capped < left { 0 } else { left };
+            (lower, Some(upper))
+        })
     }
 }
 
